@@ -93,6 +93,7 @@ def handle (op : String) (args : List String) : Option String :=
     | _ => some "false"
   else if op.startsWith "c02.op." then
     let name := (op.drop 7).toString
+    if knownPanic name args then some "panic" else
     (applyOp name args).map (showResults name)
   else match op, args.mapM String.toNat? with
     | "c02.gen.uvsphere", some [r, c] => if r < 2 ∨ c < 3 then some "rejected" else some (genOut (uvVerts r c) (uvSphereTris r c))
